@@ -1,7 +1,8 @@
 // Instrumented atomics for the libcds verification build (-DKHIZMAX_LIBCDS_VERIF).
 // cds/algo/atomic.h points the `atomics` namespace alias here. Every member performs the
-// SAME operation with the SAME memory order on an embedded std::atomic<T>, preceded by a call
-// to the perturbation engine (cds_verif_point), which may delay or deschedule the thread.
+// SAME operation with the SAME memory order on an embedded std::atomic<T>, preceded (and, for
+// writing operations, followed) by a call to the perturbation engine (cds_verif_point), which may
+// delay or deschedule the thread.
 #ifndef CDS_VERIF_ATOMIC_H
 #define CDS_VERIF_ATOMIC_H
 
@@ -11,7 +12,8 @@
 #include <type_traits>
 
 extern "C" {
-    // kind: 0 load, 1 store, 2 rmw, 3 cas, 4 fence, 5 spin hint
+    // kind: 0 load, 1 store, 2 rmw, 3 cas, 4 fence, 5 spin hint, 6 after a store / rmw / cas (the value is published, the
+    // thread's next non-atomic action can be delayed: publish-before-fill and release-before-cleanup windows)
     void cds_verif_point( int kind, const volatile void * addr ) noexcept;
 }
 
@@ -54,14 +56,14 @@ namespace cds_verif { namespace atomics {
 
 #define CDSV_GEN(CV) \
             bool is_lock_free() const CV noexcept { return m_a.is_lock_free(); } \
-            void store( T v, memory_order mo = memory_order_seq_cst ) CV noexcept { cds_verif_point( 1, this ); m_a.store( v, mo ); } \
+            void store( T v, memory_order mo = memory_order_seq_cst ) CV noexcept { cds_verif_point( 1, this ); m_a.store( v, mo ); cds_verif_point( 6, this ); } \
             T load( memory_order mo = memory_order_seq_cst ) const CV noexcept { cds_verif_point( 0, this ); return m_a.load( mo ); } \
             operator T() const CV noexcept { return load(); } \
-            T exchange( T v, memory_order mo = memory_order_seq_cst ) CV noexcept { cds_verif_point( 2, this ); return m_a.exchange( v, mo ); } \
-            bool compare_exchange_weak( T& e, T d, memory_order s, memory_order f ) CV noexcept { cds_verif_point( 3, this ); return m_a.compare_exchange_weak( e, d, s, f ); } \
-            bool compare_exchange_strong( T& e, T d, memory_order s, memory_order f ) CV noexcept { cds_verif_point( 3, this ); return m_a.compare_exchange_strong( e, d, s, f ); } \
-            bool compare_exchange_weak( T& e, T d, memory_order mo = memory_order_seq_cst ) CV noexcept { cds_verif_point( 3, this ); return m_a.compare_exchange_weak( e, d, mo ); } \
-            bool compare_exchange_strong( T& e, T d, memory_order mo = memory_order_seq_cst ) CV noexcept { cds_verif_point( 3, this ); return m_a.compare_exchange_strong( e, d, mo ); }
+            T exchange( T v, memory_order mo = memory_order_seq_cst ) CV noexcept { cds_verif_point( 2, this ); T r = m_a.exchange( v, mo ); cds_verif_point( 6, this ); return r; } \
+            bool compare_exchange_weak( T& e, T d, memory_order s, memory_order f ) CV noexcept { cds_verif_point( 3, this ); bool r = m_a.compare_exchange_weak( e, d, s, f ); cds_verif_point( 6, this ); return r; } \
+            bool compare_exchange_strong( T& e, T d, memory_order s, memory_order f ) CV noexcept { cds_verif_point( 3, this ); bool r = m_a.compare_exchange_strong( e, d, s, f ); cds_verif_point( 6, this ); return r; } \
+            bool compare_exchange_weak( T& e, T d, memory_order mo = memory_order_seq_cst ) CV noexcept { cds_verif_point( 3, this ); bool r = m_a.compare_exchange_weak( e, d, mo ); cds_verif_point( 6, this ); return r; } \
+            bool compare_exchange_strong( T& e, T d, memory_order mo = memory_order_seq_cst ) CV noexcept { cds_verif_point( 3, this ); bool r = m_a.compare_exchange_strong( e, d, mo ); cds_verif_point( 6, this ); return r; }
             CDSV_CV_BOTH(CDSV_GEN)
 #undef CDSV_GEN
         };
@@ -74,11 +76,11 @@ namespace cds_verif { namespace atomics {
             atomic_integral() noexcept = default;
             constexpr atomic_integral( T v ) noexcept : base( v ) {}
 #define CDSV_INT(CV) \
-            T fetch_add( T v, memory_order mo = memory_order_seq_cst ) CV noexcept { cds_verif_point( 2, this ); return this->m_a.fetch_add( v, mo ); } \
-            T fetch_sub( T v, memory_order mo = memory_order_seq_cst ) CV noexcept { cds_verif_point( 2, this ); return this->m_a.fetch_sub( v, mo ); } \
-            T fetch_and( T v, memory_order mo = memory_order_seq_cst ) CV noexcept { cds_verif_point( 2, this ); return this->m_a.fetch_and( v, mo ); } \
-            T fetch_or( T v, memory_order mo = memory_order_seq_cst ) CV noexcept { cds_verif_point( 2, this ); return this->m_a.fetch_or( v, mo ); } \
-            T fetch_xor( T v, memory_order mo = memory_order_seq_cst ) CV noexcept { cds_verif_point( 2, this ); return this->m_a.fetch_xor( v, mo ); } \
+            T fetch_add( T v, memory_order mo = memory_order_seq_cst ) CV noexcept { cds_verif_point( 2, this ); auto r = this->m_a.fetch_add( v, mo ); cds_verif_point( 6, this ); return r; } \
+            T fetch_sub( T v, memory_order mo = memory_order_seq_cst ) CV noexcept { cds_verif_point( 2, this ); auto r = this->m_a.fetch_sub( v, mo ); cds_verif_point( 6, this ); return r; } \
+            T fetch_and( T v, memory_order mo = memory_order_seq_cst ) CV noexcept { cds_verif_point( 2, this ); auto r = this->m_a.fetch_and( v, mo ); cds_verif_point( 6, this ); return r; } \
+            T fetch_or( T v, memory_order mo = memory_order_seq_cst ) CV noexcept { cds_verif_point( 2, this ); auto r = this->m_a.fetch_or( v, mo ); cds_verif_point( 6, this ); return r; } \
+            T fetch_xor( T v, memory_order mo = memory_order_seq_cst ) CV noexcept { cds_verif_point( 2, this ); auto r = this->m_a.fetch_xor( v, mo ); cds_verif_point( 6, this ); return r; } \
             T operator++() CV noexcept { return fetch_add( 1 ) + 1; } \
             T operator++(int) CV noexcept { return fetch_add( 1 ); } \
             T operator--() CV noexcept { return fetch_sub( 1 ) - 1; } \
@@ -100,8 +102,8 @@ namespace cds_verif { namespace atomics {
             atomic_pointer() noexcept = default;
             constexpr atomic_pointer( P v ) noexcept : base( v ) {}
 #define CDSV_PTR(CV) \
-            P fetch_add( std::ptrdiff_t v, memory_order mo = memory_order_seq_cst ) CV noexcept { cds_verif_point( 2, this ); return this->m_a.fetch_add( v, mo ); } \
-            P fetch_sub( std::ptrdiff_t v, memory_order mo = memory_order_seq_cst ) CV noexcept { cds_verif_point( 2, this ); return this->m_a.fetch_sub( v, mo ); } \
+            P fetch_add( std::ptrdiff_t v, memory_order mo = memory_order_seq_cst ) CV noexcept { cds_verif_point( 2, this ); auto r = this->m_a.fetch_add( v, mo ); cds_verif_point( 6, this ); return r; } \
+            P fetch_sub( std::ptrdiff_t v, memory_order mo = memory_order_seq_cst ) CV noexcept { cds_verif_point( 2, this ); auto r = this->m_a.fetch_sub( v, mo ); cds_verif_point( 6, this ); return r; } \
             P operator++() CV noexcept { return fetch_add( 1 ) + 1; } \
             P operator++(int) CV noexcept { return fetch_add( 1 ); } \
             P operator--() CV noexcept { return fetch_sub( 1 ) - 1; } \
